@@ -33,6 +33,10 @@ pub fn run_history(case: &Case, dir: &Path, p: &Profile, findings: &Findings) ->
             if ex.checks.disk_used && matches!(op, Op::WaitIdle) {
                 ex.check_disk_used().await?;
             }
+            if ex.desynced {
+                // an open known finding applies from here on (recorded in known_hits): the rest of the case is not judged
+                break;
+            }
         }
         ex.wait_msgs().await?;
         ex.close().await?;
@@ -63,6 +67,10 @@ pub fn run_profile(ctx: &RunCtx, p: &Profile, cases: u64, report: &mut Report) {
             .prop_map(move |mut c| {
                 if other_cdir && c.group % 3 == 0 {
                     c.corrupted_dir = Some("quarantine".to_string());
+                }
+                // ... and a quarter leaves corrupted blobs where they are (ignore_corrupted): their ids stay taken
+                if other_cdir && c.group % 4 == 1 {
+                    c.ignore_corrupted = true;
                 }
                 c
             })
